@@ -41,6 +41,13 @@ def ops(rng, tier, floats_only=False):
                 out.append(f"dextra {t} {i} #X=a200{hd}0180")
             out.append(f"dextra UnitE {i} #X=82018280{hd}")
         out.append("dextra UnitE ping #X=82008180")
+        # a three-state type whose nil value (K) is not what its decoder makes of `null` (C): a written `null` belongs to the type's decoder
+        for p_, q_ in (("C", "3"), ("C", "K"), ("3", "C"), ("C", "C"), ("K", "K"), ("5", "K"), ("24", "255")):
+            out.append(f"dextra PatchA 7 {p_} {q_}")
+            out.append(f"dextra PatchE {p_} {q_}")
+        for p_ in ("K", "C", "0", "24"):
+            for q_ in ("K", "C", "255"):
+                out.append(f"dextra PatchM 24 {p_} {q_}")
     for a in F32:
         for b in rng.sample(F64, 4) + ["7ff8000000000001", "fff8000000000000", "3ff0000000000000"]:
             for t in ("FltA", "FltM", "FltE"):
